@@ -718,3 +718,86 @@ func literalStores(c *core.Ctx, v ssa.Value) map[string][]ssa.Value {
 	}
 	return out
 }
+
+// literalListElems: the elements of the literal list ia indexes into: a slice of a literal array (possibly held in a
+// local variable assigned once), or a literal array indexed directly.
+func literalListElems(ia *ssa.IndexAddr) ([]ssa.Value, bool) {
+	x := ia.X
+	if ld, ok := x.(*ssa.UnOp); ok && ld.Op == token.MUL {
+		if o := an.Origin(ld); o != ssa.Value(ld) {
+			x = o
+		}
+	}
+	if sl, ok := x.(*ssa.Slice); ok {
+		if elems, ok := variadicElems(sl); ok && len(elems) > 0 {
+			return elems, true
+		}
+		return nil, false
+	}
+	al, ok := x.(*ssa.Alloc)
+	if !ok || al.Referrers() == nil {
+		return nil, false
+	}
+	if _, isArr := an.Deref(al.Type()).Underlying().(*types.Array); !isArr {
+		return nil, false
+	}
+	var elems []ssa.Value
+	for _, ref := range *al.Referrers() {
+		if ia2, ok := ref.(*ssa.IndexAddr); ok && ia2.Referrers() != nil {
+			for _, rr := range *ia2.Referrers() {
+				if st, ok := rr.(*ssa.Store); ok && st.Addr == ssa.Value(ia2) {
+					elems = append(elems, st.Val)
+				}
+			}
+		}
+	}
+	return elems, len(elems) > 0
+}
+
+// fieldStoreAt: the value the field of a local struct variable holds at the instruction at, when that is decided by
+// dominance: the store to the field that dominates at and is not followed, on a way to at, by another store to it.
+func fieldStoreAt(al *ssa.Alloc, field string, at ssa.Instruction) ssa.Value {
+	st, ok := an.Deref(al.Type()).Underlying().(*types.Struct)
+	if !ok || al.Referrers() == nil {
+		return nil
+	}
+	var stores []*ssa.Store
+	for _, ref := range *al.Referrers() {
+		fa, ok := ref.(*ssa.FieldAddr)
+		if !ok || st.Field(fa.Field).Name() != field || fa.Referrers() == nil {
+			continue
+		}
+		for _, rr := range *fa.Referrers() {
+			if s, ok := rr.(*ssa.Store); ok && s.Addr == ssa.Value(fa) {
+				stores = append(stores, s)
+			}
+		}
+	}
+	before := func(s *ssa.Store) bool {
+		if s.Block() == at.Block() {
+			return an.InstrIndex(s) < an.InstrIndex(at)
+		}
+		return s.Block().Dominates(at.Block())
+	}
+	var best *ssa.Store
+	for _, s := range stores {
+		if !before(s) {
+			continue
+		}
+		if best == nil || an.Reaches(best, s) {
+			best = s
+		}
+	}
+	if best == nil {
+		return nil
+	}
+	for _, s := range stores {
+		if s == best || !an.Reaches(s, at) {
+			continue
+		}
+		if an.Reaches(best, s) {
+			return nil // a later store may intervene
+		}
+	}
+	return best.Val
+}
